@@ -241,6 +241,30 @@ def ops13 : List (String × Op) := [
     let K ← field j "model" >>= asKtensor
     let d ← field j "data" >>= asRats
     .ok (ktensorJ (updateF K d))),
+  ("c13_lbfgsb_opts", fun j => do
+    -- the options an LBFGSB object holds after one solve (the service answer is irrelevant)
+    let oj ← field j "opts"
+    let optNat (k : String) : R (Option Nat) := match fieldOpt oj k with
+      | none => pure none
+      | some v => do let n ← asNat v; pure (some n)
+    let optInt (k : String) : R (Option Int) := match fieldOpt oj k with
+      | none => pure none
+      | some v => do let n ← asInt v; pure (some n)
+    let optRat (k : String) : R (Option Rat) := match fieldOpt oj k with
+      | none => pure none
+      | some v => do let q ← asRat v; pure (some q)
+    let o : LbfgsbOpts Rat := ⟨← optNat "m", ← field oj "factr" >>= asRat, ← optRat "pgtol",
+      ← optRat "epsilon", ← optInt "iprint", ← optInt "disp", ← optNat "maxfun",
+      ← field oj "maxiter" >>= asNat, ← optNat "callback", ← optNat "maxls"⟩
+    let K : Ktensor Rat := ⟨[1], [[[0]]]⟩
+    let o' := (lbfgsbSolveObj tovecF updateF (fun _ _ x _ => (x, 0)) o (fun _ => 0) K none).2
+    let nJ (x : Option Nat) : Json := match x with | none => Json.null | some n => toJson n
+    let iJ (x : Option Int) : Json := match x with | none => Json.null | some n => toJson n
+    let qJ (x : Option Rat) : Json := match x with | none => Json.null | some q => ratJ q
+    .ok (Json.mkObj [("m", nJ o'.m), ("factr", ratJ o'.factr), ("pgtol", qJ o'.pgtol),
+      ("epsilon", qJ o'.epsilon), ("iprint", iJ o'.iprint), ("disp", iJ o'.disp),
+      ("maxfun", nJ o'.maxfun), ("maxiter", toJson o'.maxiter), ("callback", nJ o'.callback),
+      ("maxls", nJ o'.maxls)])),
   ("c13_solves", fun j => solvesOp scRat none j),
   ("c13_solves_float", fun j => solvesOp scFloat (some Float.sqrt) j),
   ("c13_step", fun j => stepOp scRat none j),
